@@ -102,7 +102,7 @@ static int do_release(int r, int a, void* p, size_t n, const char* tag) {
     case 2: n2 = 2 * n + 1; q = realloc(p, n2); break;
     case 3: n2 = n / 2 + 1; q = realloc(p, n2); break;
     case 4: n2 = 3 * (n + 1); q = reallocarray(p, 3, n + 1); break;
-    case 5: { size_t u = malloc_usable_size(p); if (u < n) { viol("%s: malloc_usable_size = %zu < %zu", tag, u, n); return 1; } if (u != f_usable(p)) { viol("%s: malloc_usable_size %zu != mi_usable_size %zu", tag, u, f_usable(p)); return 1; } free(p); return 0; }
+    case 5: { size_t u = malloc_usable_size(p); if (u < n) { viol("%s: malloc_usable_size = %zu < %zu", tag, u, n); return 1; } if (u != f_usable(p)) { viol("%s: malloc_usable_size %zu != mi_usable_size %zu", tag, u, f_usable(p)); return 1; } memset(p, 0x5A, u); /* what is reported as usable may be used (a hardened build checks the bytes behind it when the block is released) */ free(p); return 0; }
     case 6: ::operator delete(p); return 0;
     case 7: ::operator delete[](p); return 0;
     case 8: ::operator delete(p, n); return 0;
@@ -127,6 +127,10 @@ static int do_release(int r, int a, void* p, size_t n, const char* tag) {
 static void run_pair(int a, int si, int r) {
   size_t n = SIZES[si], eff = 0;
   char tag[160]; snprintf(tag, sizeof(tag), "%s(%zu) -> %s", A_names[a], n, R_names[r]);
+  /* aligned entry points: three earlier aligned blocks of the same size stay live, so that the measured one is not always the
+     naturally aligned first block of a fresh page (over-allocated blocks are returned as interior pointers) */
+  void* spacers[3] = { NULL, NULL, NULL };
+  if (is_aligned_entry(a) && n > 0 && n <= 100000) for (int k = 0; k < 3; k++) { size_t e2; void* sp = do_alloc(a, n + (size_t)k * 8, &e2); spacers[k] = (sp == (void*)-1 ? NULL : sp); if (sp == NULL || sp == (void*)-1) break; if (((uintptr_t)sp % AL) != 0) { viol("%s: spacer %p not %zu-aligned", tag, sp, AL); return; } memset(sp, 0x11, f_usable(sp)); }
   long before = heap_blocks();
   void* p = do_alloc(a, n, &eff);
   if (p == (void*)-1) return;
@@ -145,6 +149,8 @@ static void run_pair(int a, int si, int r) {
   if (do_release(r, a, p, eff, tag)) return;
   long after = heap_blocks();
   if (after != before) { viol("%s: heap holds %ld blocks after the release (before the allocation: %ld): not released exactly once", tag, after, before); return; }
+  /* the spacers were filled up to their reported usable size: releasing them lets a hardened build verify what lies behind */
+  for (int k = 0; k < 3; k++) if (spacers[k]) { if (a == 16 || a == 18) ::operator delete(spacers[k], std::align_val_t(AL)); else if (a == 17 || a == 19) ::operator delete[](spacers[k], std::align_val_t(AL)); else free(spacers[k]); }
   sh->ok++; if (n >= 4096) sh->nontrivial++;
 }
 
